@@ -11,7 +11,9 @@ def dyadic(rng, lo=-8, hi=8, bits=3):
 
 def sorted_x(rng, m, kind=None):
     """strictly increasing abscissae; kinds: uniform, nonuniform dyadic, integer, wide-ratio"""
-    kind = kind or rng.choice(["uniform", "uniform", "dyadic", "dyadic", "int", "ratio"])
+    kind = kind or rng.choice(["uniform", "uniform", "dyadic", "dyadic", "int", "ratio", "uniform", "dyadic", "dyadic", "int", "ratio", "epoch"])
+    if kind == "epoch":
+        return epoch_x(rng, m)
     if kind == "uniform":
         x0 = dyadic(rng, -4, 4, 2)
         step = rng.choice([0.25, 0.5, 1.0, 2.0, 3.0])
